@@ -647,5 +647,32 @@ package graphql
 //@   nosafety
 //@   assigns nothing
 //@   ensures result1 == nil
-//@   loop 1 invariant fresh(fields)
-//@   loop[C12] 1 ordered
+//@   loop[C12] 1 invariant fresh(fieldNames)
+//@   loop[C12] 2 ordered
+//@   loop[C12] 2 invariant sortedflag(fieldNames) && fresh(fields)
+
+//@ func after:introspection.go:TypeType.AddFieldConfig("fields"
+//@   props C10 C07 C12
+//@   nosafety
+//@   assigns nothing
+//@   ensures result1 == nil
+//@   loop[C12] 2 ordered
+//@   loop[C12] 2 invariant sortedflag(fieldNames) && fresh(fields)
+//@   loop[C12] 4 ordered
+//@   loop[C12] 4 invariant sortedflag(fieldNames) && fresh(fields)
+//@   loop 1 invariant fresh(fieldNames)
+//@   loop 3 invariant fresh(fieldNames)
+
+//@ func Schema.TypeMap
+//@   trusted
+//@   functional
+//@   assigns nothing
+
+//@ func after:introspection.go:"A list of all types supported by this server."
+//@   props C10 C07 C12
+//@   nosafety
+//@   assigns nothing
+//@   ensures result1 == nil
+//@   loop 1 invariant fresh(typeNames)
+//@   loop[C12] 2 ordered
+//@   loop[C12] 2 invariant sortedflag(typeNames) && fresh(results)
